@@ -82,6 +82,20 @@ def gen_norm(rng, n, tier="quick"):
         tzarg = z.iana if by_name else z.tzinfo
         tz_tok = ("Zname:%d" if by_name else "Zobj:%d") % z.id
         k = i % 13
+        if k in (0, 1, 2, 3) and z.iana is not None and rng.random() < 0.3 and not isinstance(o.elevation, tuple):
+            # slide the observer along the parallel until this very event reads about 00:00 in the
+            # (named) zone: the date re-matching then runs with the zone in whatever form it was
+            # given
+            fn0 = (sun.dawn, sun.dusk, sun.sunrise, sun.sunset)[k]
+            st0, t0 = call(fn0, o, d)
+            if st0 == "ok":
+                loc0 = t0.astimezone(z.tzinfo)
+                mins = loc0.hour * 60 + loc0.minute + rng.uniform(-3, 3)
+                if mins > 720:
+                    mins -= 1440                      # minutes past the nearest local midnight
+                from astral import Observer as _Obs
+                lon2 = (o.longitude + mins / 4.0 + 180.0) % 360.0 - 180.0   # east = earlier
+                o = _Obs(o.latitude, lon2, o.elevation)
         k = {9: 7, 10: 7}.get(k, k)       # the period functions three times as often
         descr = {"observer": obs_descr(o), "zone": z.describe(), "tz_by_name": by_name,
                  "now": now.isoformat()}
